@@ -11,6 +11,8 @@ open RaftLog
 #print axioms c02_replay_drain
 #print axioms c02_replay_invariant
 #print axioms c02_linked_files
+#print axioms c02_syncAll_durable
+#print axioms c02_syncEvs_only
 #print axioms c02_restart_step
 #print axioms c02_clean_restart
 #print axioms c02_refinement_continues
